@@ -301,7 +301,12 @@ namespace cnl {
                                 + overflow_digits<Rhs, polarity::positive>::value
                         > traits::positive_digits)
                     && ((lhs < Lhs{0}) ? (rhs > Rhs{0}) && (traits::lowest() / rhs) > lhs
-                                       : (rhs < Rhs{0}) && (traits::lowest() / rhs) < lhs);
+                                       : (rhs < Rhs{0})
+                                                 // lowest() / -1 is not representable (and a non-negative
+                                                 // number times -1 cannot underflow a signed result)
+                                                 && !(has_most_negative_number<typename traits::result>::value
+                                                      && rhs == static_cast<Rhs>(-1))
+                                                 && (traits::lowest() / rhs) < lhs);
             }
         };
 #if defined(__GNUC__)
